@@ -19,6 +19,8 @@ DumpSucceeds == R.dumped.ok
 DumpAsSpecified == R.dumped.ok => SameN(Dump(R.orig, Cfg, CT), R.dumped.v)
 \* C07 / C15: load(dump(x)) equals x up to container normalisation, objects keep class and fields, primitives keep
 \* exact type and value  (not claimed when handlers replaced parts of the structure)
+\* C15: what dump() returns is serialisable by the library's JSON backend when every key is a string
+BackendSerialisable == (R.dumped.ok /\ R.strkeys) => R.wire_ok
 LoadSucceeds == (R.dumped.ok /\ R.wire_ok /\ R.cfg.H = <<>>) => R.loaded.ok
 RoundTrip == (R.dumped.ok /\ R.wire_ok /\ R.loaded.ok /\ R.cfg.H = <<>>) => SameN(NormV(R.orig, Cfg, CT), R.loaded.v)
 \* conformance of load with the model (given the real dumped value)
@@ -31,6 +33,7 @@ PureLoad == R.loadin = R.loadin_after
 Flag(name) == PrintT(<<"PROPFAIL", i, name>>)
 Monitor == /\ DumpSucceeds \/ Flag("DumpSucceeds")
            /\ OnlyJsonOut \/ Flag("OnlyJsonOut")
+           /\ BackendSerialisable \/ Flag("BackendSerialisable")
            /\ DumpAsSpecified \/ Flag("DumpAsSpecified")
            /\ LoadSucceeds \/ Flag("LoadSucceeds")
            /\ RoundTrip \/ Flag("RoundTrip")
